@@ -26,7 +26,13 @@ class HO:
         return self._vec(*a)
 
 
+class ProgTimeout(BaseException):
+    pass
+
+
 class Runner:
+    time_limit = 15.0  # generous outer bound for programs whose reference run takes a few hundred steps
+
     def __init__(self, b):
         self.b = b
         self.trace = []
@@ -97,9 +103,22 @@ class Runner:
         if ctx is None:
             ctx = self._ctxs[optset] = b.ctx(b.opts(**OPTION_SETS[optset]))
         del self.trace[:]
+        import signal
+
+        def _alarm(sig, frm):
+            raise ProgTimeout()
+
+        old = signal.signal(signal.SIGALRM, _alarm)
+        signal.setitimer(signal.ITIMER_REAL, self.time_limit)
         try:
-            v = b.eval_str(text, ns=self.ns, ctx=ctx)
-            out = ("val", self.norm(v))
+            try:
+                v = b.eval_str(text, ns=self.ns, ctx=ctx)
+                out = ("val", self.norm(v))
+            finally:
+                signal.setitimer(signal.ITIMER_REAL, 0)
+                signal.signal(signal.SIGALRM, old)
+        except ProgTimeout:
+            out = ("timeout", self.time_limit)
         except self.CompilerException as e:
             out = ("compile-error", type(e).__name__, str(getattr(e, "msg", e))[:160])
         except RecursionError:
